@@ -360,7 +360,10 @@ func assignOne(destValue reflect.Value, taken any, to string) (reflect.Value, er
 			return destValue, fmt.Errorf("field mapping to a struct field but output is not a struct, type=%v", destValue.Type())
 		}
 
-		field := destValue.FieldByName(path)
+		field, err := structField(destValue, path, true)
+		if err != nil {
+			return destValue, err
+		}
 		if !field.IsValid() {
 			return destValue, fmt.Errorf("field mapping to a struct field, but field not found. field=%v, outputType=%v", path, destValue.Type())
 		}
@@ -415,8 +418,33 @@ func newInstanceByType(typ reflect.Type) reflect.Value {
 	}
 }
 
+// structField is Value.FieldByName for a field that may be promoted through embedded pointers: FieldByName panics
+// when such a pointer is nil; here it is allocated (for a target that is being filled) or reported as an error.
+func structField(v reflect.Value, name string, alloc bool) (reflect.Value, error) {
+	sf, ok := v.Type().FieldByName(name)
+	if !ok {
+		return reflect.Value{}, nil
+	}
+	for i, x := range sf.Index {
+		if i > 0 && v.Kind() == reflect.Ptr {
+			if v.IsNil() {
+				if !alloc || !v.CanSet() {
+					return reflect.Value{}, fmt.Errorf("field[%s] of type[%v] lies behind a nil embedded pointer", name, sf.Type)
+				}
+				v.Set(reflect.New(v.Type().Elem()))
+			}
+			v = v.Elem()
+		}
+		v = v.Field(x)
+	}
+	return v, nil
+}
+
 func checkAndExtractFromField(fromField string, input reflect.Value) (reflect.Value, error) {
-	f := input.FieldByName(fromField)
+	f, err := structField(input, fromField, false)
+	if err != nil {
+		return reflect.Value{}, fmt.Errorf("field mapping from a struct field: %w", err)
+	}
 	if !f.IsValid() {
 		return reflect.Value{}, fmt.Errorf("field mapping from a struct field, but field not found. field=%v, inputType=%v", fromField, input.Type())
 	}
@@ -531,7 +559,10 @@ func checkAndExtractToField(toField string, output, toSet reflect.Value) (field 
 		return reflect.Value{}, fmt.Errorf("field mapping to a struct field but output is not a struct, type=%v", output.Type())
 	}
 
-	field = output.FieldByName(toField)
+	field, err = structField(output, toField, true)
+	if err != nil {
+		return reflect.Value{}, err
+	}
 	if !field.IsValid() {
 		return reflect.Value{}, fmt.Errorf("field mapping to a struct field, but field not found. field=%v, outputType=%v", toField, output.Type())
 	}
@@ -772,6 +803,14 @@ func validateFieldMapping(predecessorType reflect.Type, successorType reflect.Ty
 				continue // at request time expand this 'any' to 'map[string]any'
 			}
 			return nil, fmt.Errorf("static check failed for mapping %s, the successor has intermediate interface type %v", mapping, successorFieldType)
+		}
+		if toPath := splitFieldPath(mapping.to); len(toPath) > 1 {
+			// the last element of the path may lie below an interface-typed field as well: only 'any' can be
+			// expanded to a map at request time, nothing can be set below any other interface type
+			parentType, _, _ := checkAndExtractFieldType(toPath[:len(toPath)-1], successorType)
+			if parentType != nil && parentType.Kind() == reflect.Interface && parentType != reflect.TypeOf((*any)(nil)).Elem() {
+				return nil, fmt.Errorf("static check failed for mapping %s, the successor has intermediate interface type %v", mapping, parentType)
+			}
 		}
 
 		// the checkers below outlive this iteration: they must see this mapping and this target type
